@@ -54,3 +54,41 @@ void h_xf_write(void) {
 }
 #endif
 }
+
+// nth_channel_view / kth_channel_view: same dimensions; channel 0 of the derived pixel is channel n of the source pixel (address identity
+// for memory-based sources, value for function-object sources); the relation survives the shallow conversion of the derived view to its
+// const view type (construction and assignment) and a further transformation XF1 applied on top.
+#if NTH
+extern "C" void h_nth(void) {
+    SRC s; auto v = s.make();
+    int n = vp_range(0, (int)gil::num_channels<typename SRC::view_t>::value - 1);
+    auto c = gil::nth_channel_view(v, n);
+    XF1 f1; f1.init(s.w, s.h);
+    auto t = f1.apply(c);
+    int w1 = f1.ow(s.w, s.h), h1 = f1.oh(s.w, s.h);
+    vp_assert(c.width() == s.w && c.height() == s.h && t.width() == w1 && t.height() == h1, "nth.dims");
+    int x, y; vp_coord(w1, h1, x, y);
+    int sx, sy; f1.map(x, y, s.w, s.h, sx, sy);
+    typename decltype(t)::const_t ct(t);
+    typename decltype(t)::const_t ct2; ct2 = t;
+#if ADDRESSABLE
+    vp_assert(&t(x, y)[0] == &v(sx, sy)[n], "nth.channel_identity");
+    vp_assert(&ct(x, y)[0] == &v(sx, sy)[n] && &ct2(x, y)[0] == &v(sx, sy)[n], "nth.channel_identity_after_const_conversion");
+    // shallow write: exactly the bytes of channel n of the source pixel change
+    int k = vp_range(0, SRC::nplanes - 1);
+    unsigned long i = vp_nondet_u64(); vp_assume(i < s.plane_size());
+    unsigned char before = vp_nondet_u8();
+    s.plane(k)[i] = before;
+    typename gil::channel_type<typename SRC::view_t>::type val; vp_fill(&val, sizeof val);
+    t(x, y)[0] = val;
+    unsigned char after = s.plane(k)[i];
+    unsigned char mask = s.chan_mask_of(sx, sy, n, k, i);
+    vp_assert(((before ^ after) & (unsigned char)~mask) == 0, "nth.write_touches_only_that_channel");
+    vp_assert(v(sx, sy)[n] == val, "nth.write_reaches_source_channel");
+#else
+    s.prepare(sx, sy);
+    vp_assert(t(x, y)[0] == v(sx, sy)[n], "nth.channel_value");
+    vp_assert(ct(x, y)[0] == v(sx, sy)[n] && ct2(x, y)[0] == v(sx, sy)[n], "nth.channel_value_after_const_conversion");
+#endif
+}
+#endif
